@@ -9,6 +9,11 @@ CHECKS = {
   text="Generated-input search: lists of route entries (duplicates, near-duplicates, slash noise) are fed to the real paths.FindConflicts; a brute-force overlap predicate transcribed from the statement decides soundness of every reported pair, completeness per entry and permutation-independence of the flagged set. An end-to-end sub-check drives generated projects through ApiValidator. Sampling, not exhaustive.",
   note="Trusts: rapid's generators/shrinker; entries are told apart via unique Meta.Receiver pointers; pairs differing only by a trailing slash are left open (statement does not fix that normalisation).",
   ref="6/C15"),
+ "C17": dict(
+  technique="model-based (stateful) property testing with rapid: generated edit histories vs set-of-nodes/set-of-edges reference model, invariant after every step",
+  text="Generated-input search over edit histories (node insertions of every kind, edge insert/remove by kind or all, node removal, file-version bumps, verbatim repeats) on the real SymbolGraph; after every step every public view (Exists/Get/GetEdges/duality/Children/Parents/Descendants/FindByKind) is compared with a plain reference model that implements the documented removal cascade as a fixpoint. Sampling of an unbounded history space.",
+  note="Trusts: rapid; the reference model in props/unit/c17_test.go (edges on base ids; orphan rule as documented in RemoveNode); fabricated AST nodes/file versions stand in for parsed files.",
+  ref="6/C17"),
 }
 
 NOT_APPLICABLE = []
